@@ -120,6 +120,8 @@ class SymbolNode(NodeProtocol):
 
     def pc_after(self, current_pc: Address) -> Address:
         assert isinstance(self.expression, ExpressionAstNode)
+        # the definition itself may refer to an outer symbol of the same name (k = k + 1).
+        self.resolver.current_scope.pending.discard(self.symbol_name)
         value = eval_expression(self.expression, self.resolver)
         self.resolver.current_scope.add_symbol(self.symbol_name, value)
         return current_pc
